@@ -18,6 +18,7 @@ let () =
           | "X" -> Some (z_of_int 4, List.init 10 (fun _ -> nz ()))
           | "R" -> Some (z_of_int 8, List.init 33 (fun _ -> nz ()))
           | "W" -> Some (z_of_int 8, List.init 39 (fun _ -> nz ()))
+          | "N" -> Some (z_of_int 4, List.init 2 (fun _ -> nz ()))   (* raw context of a 32-bit architecture: pc sp *)
           | "V" ->
             (* only the registers of the mask are valid (valid_registers() yields just those) *)
             let mask = int_of_string (next ()) in
